@@ -1,3 +1,298 @@
 package main
 
-func runDecoder(s *Script, rec *Rec) {}
+import (
+	"bytes"
+	"math/rand"
+
+	"github.com/ulikunitz/lz"
+)
+
+// schedWriter is the destination writer of a Decoder script. Its behaviour
+// per call comes from the script's schedule (index = number of the writer
+// call since the script began); beyond the schedule it accepts everything.
+// It conforms to io.Writer (a short write always returns an error) and logs
+// every call.
+type schedWriter struct {
+	sched [][2]int // accept (<0: all), fail (0/1)
+	calls int
+	// per API call
+	wcalls     []any
+	emptyInRow int
+	in         string
+}
+
+func (w *schedWriter) beginCall(in string) {
+	w.wcalls = []any{}
+	w.emptyInRow = 0
+	w.in = in
+}
+
+func (w *schedWriter) Write(p []byte) (int, error) {
+	accept, fail := -1, false
+	if w.calls < len(w.sched) {
+		accept, fail = w.sched[w.calls][0], w.sched[w.calls][1] != 0
+	}
+	w.calls++
+	k := len(p)
+	if accept >= 0 && accept < k {
+		k = accept
+	}
+	var err error
+	if k < len(p) || fail {
+		err = errHarnessWriter
+	}
+	w.wcalls = append(w.wcalls, []any{B(p), k, decErr(err)})
+	// Repeated-state detection (C06): a retry loop that keeps flushing
+	// nothing makes no progress; a deterministic loop that revisits a
+	// state never ends.
+	if len(p) == 0 && err == nil {
+		w.emptyInRow++
+		if w.emptyInRow >= 8 {
+			panic(livelock{in: "writer called 8 times in a row with nothing to write"})
+		}
+	} else {
+		w.emptyInRow = 0
+	}
+	return k, err
+}
+
+func runDecoder(s *Script, rec *Rec) {
+	w := &schedWriter{}
+	if v, ok := s.Cfg["wsched"]; ok && v != nil {
+		for _, x := range v.([]any) {
+			t := x.([]any)
+			w.sched = append(w.sched, [2]int{int(num(t[0])), int(num(t[1]))})
+		}
+	}
+	cfg := lz.DecoderConfig{
+		WindowSize: int(num(s.Cfg["W"])),
+		BufferSize: int(num(s.Cfg["B"])),
+	}
+	var d *lz.Decoder
+	var ierr error
+	if !rec.Call("init", func() { d, ierr = lz.NewDecoder(w, cfg) }) {
+		return
+	}
+	if ierr != nil {
+		return
+	}
+	// The decoder's configuration after defaults: WindowSize 0 means 8 MiB.
+	c2 := cfg
+	c2.SetDefaults()
+	rec.Emit(Event{"op": "begin", "tid": s.Tid, "comp": "dec", "W": c2.WindowSize, "B": c2.BufferSize})
+	defer rec.Emit(Event{"op": "end"})
+	for _, op := range s.Ops {
+		name := str(op["op"])
+		retry := boolean(op["retry"])
+		ok := true
+		switch name {
+		case "dec.wbyte":
+			c := byte(num(op["c"]))
+			for attempt := 0; attempt < 6; attempt++ {
+				var err error
+				w.beginCall(name)
+				ok = rec.Call(name, func() { err = d.WriteByte(c) })
+				if !ok {
+					break
+				}
+				rec.Emit(Event{"op": name, "c": int(c), "err": decErr(err), "wcalls": w.wcalls})
+				if !(retry && err == errHarnessWriter) {
+					break
+				}
+			}
+		case "dec.write":
+			p := bytesOf(op["p"])
+			for attempt := 0; attempt < 6; attempt++ {
+				var n int
+				var err error
+				w.beginCall(name)
+				ok = rec.Call(name, func() { n, err = d.Write(p) })
+				if !ok {
+					break
+				}
+				rec.Emit(Event{"op": name, "p": B(p), "n": n, "err": decErr(err), "wcalls": w.wcalls})
+				if !(retry && err == errHarnessWriter) || n < 0 || n > len(p) {
+					break
+				}
+				p = p[n:]
+			}
+		case "dec.wblock":
+			seqs, lits := seqsOf(op["seqs"]), bytesOf(op["lits"])
+			for attempt := 0; attempt < 6; attempt++ {
+				seqs0 := append([]lz.Seq{}, seqs...)
+				lits0 := append([]byte{}, lits...)
+				blk := lz.Block{Sequences: seqs, Literals: lits}
+				var n, k, l int
+				var err error
+				w.beginCall(name)
+				ok = rec.Call(name, func() { n, k, l, err = d.WriteBlock(blk) })
+				if !ok {
+					break
+				}
+				untouched := seqsEqual(seqs, seqs0) && bytes.Equal(lits, lits0)
+				rec.Emit(Event{"op": name, "seqs": seqsJSON(seqs0), "lits": B(lits0),
+					"n": n, "k": k, "l": l, "err": decErr(err), "untouched": untouched, "wcalls": w.wcalls})
+				if !(retry && err == errHarnessWriter) || k < 0 || k > len(seqs) || l < 0 || l > len(lits) {
+					break
+				}
+				// the documented retry protocol: the unconsumed remainder
+				seqs, lits = seqs[k:], lits[l:]
+			}
+		case "dec.flush":
+			for attempt := 0; attempt < 6; attempt++ {
+				var err error
+				w.beginCall(name)
+				ok = rec.Call(name, func() { err = d.Flush() })
+				if !ok {
+					break
+				}
+				rec.Emit(Event{"op": name, "err": decErr(err), "wcalls": w.wcalls})
+				if !(retry && err == errHarnessWriter) {
+					break
+				}
+			}
+		case "dec.reset":
+			w.beginCall(name)
+			ok = rec.Call(name, func() { d.Reset(w) })
+			if ok {
+				rec.Emit(Event{"op": name})
+			}
+		default:
+			panic("lzdrive: dec: unknown op " + name)
+		}
+		if !ok {
+			return
+		}
+	}
+}
+
+// ---------------------------------------------------------------------
+// Go-side generator for Decoder histories: sizes relative to
+// BufferSize-WindowSize and BufferSize, B < 2W, writer fault schedules,
+// the retry protocol.
+// ---------------------------------------------------------------------
+
+func init() {
+	generators["dec"] = genDecoder
+}
+
+func genDecoder(seed int64, n int, tier string) []Script {
+	r := rand.New(rand.NewSource(seed))
+	var out []Script
+	for i := 0; i < n; i++ {
+		W := 1 + r.Intn(10)
+		var B int
+		switch r.Intn(4) {
+		case 0:
+			B = W + 1
+		case 1:
+			B = 2 * W
+		case 2:
+			B = W + 1 + r.Intn(W+1) // often B < 2W
+		default:
+			B = W + 1 + r.Intn(30)
+		}
+		faulty := r.Intn(2) == 0
+		invalid := r.Intn(4) == 0
+		alpha := 2 + r.Intn(3)
+		var sched [][2]int
+		if faulty {
+			m := 2 + r.Intn(10)
+			for j := 0; j < m; j++ {
+				if r.Intn(3) == 0 {
+					sched = append(sched, [2]int{r.Intn(B + 1), r.Intn(2)})
+				} else {
+					sched = append(sched, [2]int{-1, 0})
+				}
+			}
+		}
+		// sizes around the interesting boundaries
+		sizes := []int{0, 1, 2, B - W - 1, B - W, B - W + 1, W, W + 1, B - 1, B, B + 1, 2*B + 1}
+		size := func() int {
+			k := sizes[r.Intn(len(sizes))]
+			if k < 0 {
+				k = 0
+			}
+			return k
+		}
+		nops := 4 + r.Intn(16)
+		written := 0
+		var ops []map[string]any
+		for j := 0; j < nops; j++ {
+			retry := r.Intn(3) > 0
+			switch x := r.Intn(12); {
+			case x < 1:
+				ops = append(ops, map[string]any{"op": "dec.wbyte", "c": r.Intn(alpha), "retry": retry})
+				written++
+			case x < 4:
+				k := size()
+				ops = append(ops, map[string]any{"op": "dec.write", "p": randBytes(r, k, alpha), "retry": retry})
+				written += k
+			case x < 10:
+				ns := r.Intn(4)
+				var seqs [][]int64
+				nl := 0
+				w2 := written
+				for q := 0; q < ns; q++ {
+					lit := int64(r.Intn(3))
+					if r.Intn(12) == 0 {
+						lit = int64(size())
+					}
+					lim := w2 + int(lit)
+					if lim > W {
+						lim = W
+					}
+					var o int64
+					if lim > 0 {
+						o = int64(1 + r.Intn(lim))
+					}
+					m := int64(r.Intn(W + 3))
+					if r.Intn(10) == 0 {
+						m = int64(size())
+					}
+					if o == 0 {
+						m = 0
+					}
+					if invalid && r.Intn(6) == 0 {
+						o = int64(lim + 1 + r.Intn(2))
+					}
+					seqs = append(seqs, []int64{lit, m, o, 0})
+					nl += int(lit)
+					w2 += int(lit) + int(m)
+				}
+				trailing := r.Intn(3)
+				if r.Intn(4) == 0 {
+					trailing = size()
+				}
+				if invalid && r.Intn(8) == 0 && nl > 0 {
+					nl--
+					trailing = 0
+				}
+				ops = append(ops, map[string]any{"op": "dec.wblock", "seqs": seqs,
+					"lits": randBytes(r, nl+trailing, alpha), "retry": retry})
+				written = w2 + trailing
+			case x < 11:
+				ops = append(ops, map[string]any{"op": "dec.flush", "retry": retry})
+			default:
+				ops = append(ops, map[string]any{"op": "dec.reset"})
+				written = 0
+			}
+		}
+		ops = append(ops, map[string]any{"op": "dec.flush", "retry": true})
+		tags := []string{"go"}
+		if faulty {
+			tags = append(tags, "faulty")
+		}
+		if invalid {
+			tags = append(tags, "invalid")
+		}
+		out = append(out, Script{
+			Tid:  "dec-go-" + itoa(seed) + "-" + itoa(int64(i)),
+			Comp: "dec",
+			Cfg:  map[string]any{"W": W, "B": B, "wsched": sched},
+			Ops:  ops,
+			Tags: tags,
+		})
+	}
+	return out
+}
